@@ -242,7 +242,7 @@ func h265GenDesc(r *Rand, kind int, mode bool) *h265Desc {
 	switch kind {
 	case 0:
 		d.Kind = "single"
-		d.Hdr.Type = r.Pick(r.Intn(48), r.Range(51, 63), 0, 1, 19, 32, 33, 34, 39, 47)
+		d.Hdr.Type = r.Pick(r.Intn(48), r.Intn(48), 0, 1, 19, 32, 33, 34, 39, 47)
 		if mode {
 			d.Donl = donl()
 		}
@@ -269,8 +269,14 @@ func h265GenDesc(r *Rand, kind int, mode bool) *h265Desc {
 	case 2:
 		d.Kind = "fu"
 		d.Hdr.Type = 49
-		d.S, d.E = r.Bool(), r.Bool()
-		d.FuType = r.Intn(64)
+		// RFC 7798 4.4.3: S and E are never both set; FuType is the type of a plain NAL unit
+		switch r.Intn(3) {
+		case 0:
+			d.S = true
+		case 1:
+			d.E = true
+		}
+		d.FuType = r.Pick(r.Intn(48), 0, 1, 19, 20, 21, 32, 47)
 		if mode && d.S {
 			d.Donl = donl()
 		}
@@ -281,7 +287,7 @@ func h265GenDesc(r *Rand, kind int, mode bool) *h265Desc {
 		d.A = r.Bool()
 		d.CType = r.Intn(64)
 		d.PHS = r.Pick(0, 0, 1, 2, 3, 3, 3, 4, 31, r.Intn(32))
-		d.F0 = r.Chance(2, 3)
+		d.F0 = r.Chance(2, 3) && d.PHS >= 3 // F0 announces a TSCI, which takes three PHES octets
 		d.F1, d.F2, d.Y = r.Chance(1, 4), r.Chance(1, 4), r.Chance(1, 4)
 		d.PHES = r.Bytes(d.PHS)
 		d.Payload = r.Bytes(h265PaySize(r))
@@ -572,7 +578,27 @@ func genH265Dec(x *Ctx) {
 		kind := (i / 2) % 4
 		// the description is drawn once (from the first case's PRNG) and re-drawn identically for
 		// every truncation, so each case replays on its own
-		mk := func() *h265Desc { return h265GenDesc(newRand(x.Seed, x.Kind+"/desc", i), kind, mode) }
+		mk := func() *h265Desc {
+			d := h265GenDesc(newRand(x.Seed, x.Kind+"/desc", i), kind, mode)
+			if i < 8 {
+				// the first cases stay short (readable sample lines in the evidence)
+				if len(d.Payload) > 6 {
+					d.Payload = d.Payload[:6]
+				}
+				if len(d.First) > 6 {
+					d.First = d.First[:6]
+				}
+				if len(d.Rest) > 2 {
+					d.Rest = d.Rest[:2]
+				}
+				for j := range d.Rest {
+					if len(d.Rest[j].Nal) > 6 {
+						d.Rest[j].Nal = d.Rest[j].Nal[:6]
+					}
+				}
+			}
+			return d
+		}
 		x.Case(func(c *Case) { h265DecCase(c, mode, mk(), -1) })
 		d = mk()
 		full = d.encode()
